@@ -344,8 +344,13 @@ def extent_rules(chk, cr, q, ev, resolver, helper=False):
         # wrapped for the range but not for the query looks for neighbours where no cells were laid out
         def strip_idx(t):
             a = t.as_atom()
-            while a and a[0] == "sub" and len(a[2]) == 1 and a[2][0].as_atom() and a[2][0].as_atom()[0] == "lv":
-                t = a[1]
+            while a:
+                if a[0] == "sub" and len(a[2]) == 1 and a[2][0].as_atom() and a[2][0].as_atom()[0] == "lv":
+                    t = a[1]
+                elif a[0] == "call" and call_name(a) in ("numpy.asarray", "numpy.array", "numpy.atleast_2d") and a[2]:
+                    t = a[2][0]
+                else:
+                    break
                 a = t.as_atom()
             return t
 
